@@ -452,3 +452,16 @@ def on_live_side_of_sentinel_tests(body, dag, blk, within=None):
         if not se or se[0] == se[1] or not body.dominates(x, blk): continue
         if (body.dominates(se[0], blk) or se[0] == blk) and not (body.dominates(se[1], blk) or se[1] == blk): return False
     return True
+
+
+def callee_param_name(body, c):
+    """for a call through Fn / FnMut / FnOnce: the name of the function parameter that is being called (followed through re-borrows and copies), else ''"""
+    l_ = op_local(c["args"][0]) if c.get("args") else None
+    for _ in range(8):
+        if l_ is None: return ""
+        if 1 <= l_ <= body.f["argc"]: return body.lname(l_) or ""
+        d_ = body.single_def(l_)
+        if d_ is None or d_[1] == "T": return ""
+        rv_ = d_[2]
+        l_ = rv_[2]["l"] if rv_[0] in ("Ref", "RawPtr") else (rv_[1][1]["l"] if rv_[0] in ("Use", "Cast") and isinstance(rv_[1], list) and rv_[1][0] in ("c", "m") else None)
+    return ""
